@@ -151,7 +151,7 @@ func numOps() []Op {
 var (
 	payloadsB1   = alphaB
 	payloadsMini = []string{"a", "\n", mStart, mEnd, "\xe2"}
-	payloadsQ    = []string{"", "a", " ", "\n", "?", "\xe2", "\x80", "\xb9", "\xba", mStart, mEnd, "x\ny", "é"}
+	payloadsQ    = []string{"", "a", " ", "\n", "?", "\xe2", "\x80", "\xb9", "\xba", mStart, mEnd, "x\ny", "é", "\u1039", "\u503a", "\U0001f039"}
 	payloadsLong = []string{strings.Repeat("a", 61), strings.Repeat("a", 64), strings.Repeat("a", 70), strings.Repeat("a", 62) + mStart, strings.Repeat("a", 63) + "\n"}
 	runesQ       = []rune{'a', '\n', '‹', '›', 'é'}
 	runesFull    = []rune{'a', '\n', ' ', '‹', '›', 'é', '×', 0xfffd, 0x10ffff, 0xd800, 0xdfff, -1, 0x110000}
@@ -181,6 +181,7 @@ func printOps(full bool) []Op {
 		mkPrintf("%d-%s", 5, "u"),
 		mkPrintf("lit"+mStart+"%v", redact.Safe("s")),
 		mkPrintf("%5.1f|%-4q", 3.14159, "q\n"),
+		mkPrintf("100%%|%d"),
 	}
 	if full {
 		ops = append(ops,
